@@ -1,7 +1,7 @@
 (* C19 — obligations re-decided by the kernel for the tables generated from /repo on this run, non-vacuity of the
    hypotheses of C19/Props.v, and the refutations of the same statements for the unrepaired variant `orig`
    (witnesses replayed on the real code by tools/props/c19.py). *)
-From S2T Require Import Lib.PyStr C19.Model C19.Proofs Gen.C19Tables.
+From S2T Require Import Lib.PyStr C19.Model C19.Proofs C19.TextSpec Gen.C19Tables.
 From Coq Require Import List Bool NArith.
 Import ListNotations.
 Open Scope N_scope.
@@ -69,3 +69,27 @@ Theorem C19_known_witnesses_repaired :
   = [s "\sum x"; s "\sqrt{\sqrt{a}}"; s "\sqrt[a)]{\sqrt{}}"; s "\sum \prod x"; s "(a+[b])"; s "(x)"].
 Proof. vm_compute. reflexivity. Qed.
 Print Assumptions C19_known_witnesses_repaired.
+
+(* ---- premise of C19_texts_in_order_partial for today's tables, and non-vacuity of its tree hypothesis:
+   a formula with fraction, radical with degree, n-ary with limits, delimiter, a matrix nested in a matrix cell,
+   function, accent and Greek text satisfies texts_ok_root, and the equation's two sides are this string *)
+Theorem C19_tables_wf_txt : wf_txt T = true.
+Proof. vm_compute. reflexivity. Qed.
+Print Assumptions C19_tables_wf_txt.
+
+Definition w_texts := E "oMath"
+  [E "f" [E "fPr" []; E "num" [run (s "a")]; E "den" [run [946]]];
+   E "rad" [E "radPr" []; E "deg" [run (s "3")]; E "e" [run (s "x+1")]];
+   E "nary" [E "naryPr" [chr "chr" (Some [8719])]; E "sub" [run (s "i")]; E "sup" [run (s "n")]; E "e" [run (s "p")]];
+   E "d" [E "dPr" []; E "e" [run (s "u")]; E "e" [run (s "v")]];
+   E "m" [E "mPr" []; E "mr" [E "e" [E "m" [E "mr" [E "e" [run (s "k")]; E "e" [run (s "l")]]]]; E "e" [run (s "w")]]];
+   E "func" [E "fName" [run (s "sin")]; E "e" [run (s "y")]];
+   E "acc" [E "accPr" [chr "chr" (Some [771])]; E "e" [run (s "z")]]].
+
+Theorem C19_texts_ok_nonvacuous :
+  texts_ok_root T w_texts = true
+  /\ greek_str T (texts_root w_texts) = s "a\beta3x+1inpuvklwsinyz"
+  /\ out_of (convert T fixed w_texts)
+     = s "\frac{a}{\beta}\sqrt[3]{x+1}\prod_{i}^{n} p(u, v)\begin{matrix}\begin{matrix}k & l\end{matrix} & w\end{matrix}\sin{y}\tilde{z}".
+Proof. repeat split; vm_compute; reflexivity. Qed.
+Print Assumptions C19_texts_ok_nonvacuous.
